@@ -220,6 +220,8 @@ def parseField (l : Bytes) : Option Field :=
 inductive FieldsRes
   | incomplete
   | bad
+  /-- the parser refuses the section: `some code` = error reply, `none` = connection closed without reply -/
+  | refuse (reply : Option Nat)
   | ok (fs : List Field) (rest : Bytes)
 deriving DecidableEq
 
@@ -237,6 +239,7 @@ def takeFields : Nat → Bytes → FieldsRes
         match takeFields n rest with
         | .ok fs r => .ok (f :: fs) r
         | .bad => .bad
+        | .refuse x => .refuse x
         | .incomplete => .incomplete
 
 structure Head where
@@ -273,6 +276,9 @@ def parseRequestLine (l : Bytes) : Option (Bytes × Bytes × Bool) :=
 inductive HeadRes
   | incomplete
   | bad
+  /-- the parser refuses the head: `some code` = error reply (`transmit_error_response_*`),
+      `none` = connection closed without reply (`connection_close_error`) -/
+  | refuse (reply : Option Nat)
   | ok (h : Head) (rest : Bytes)
 deriving DecidableEq
 
@@ -290,6 +296,7 @@ def parseHead (b : Bytes) : HeadRes :=
       match takeFields (rest.length + 1) rest with
       | .incomplete => .incomplete
       | .bad => .bad
+      | .refuse x => .refuse x
       | .ok fs r => if fieldsInDomain fs then .ok ⟨m, t, v11, fs⟩ r else .bad
 
 /-- The decidable restriction under which the strict splitter is the real parser:
@@ -301,6 +308,7 @@ instance (b : Bytes) : Decidable (CanonicalHead b) :=
   | .ok hd r => isTrue ⟨hd, r, h⟩
   | .incomplete => isFalse (by intro ⟨a, c, hc⟩; rw [h] at hc; cases hc)
   | .bad => isFalse (by intro ⟨a, c, hc⟩; rw [h] at hc; cases hc)
+  | .refuse _ => isFalse (by intro ⟨a, c, hc⟩; rw [h] at hc; cases hc)
 
 /-- trailer section after the last chunk: field lines up to and including the empty line -/
 def parseTrailers (b : Bytes) : FieldsRes := takeFields (b.length + 1) b
@@ -309,7 +317,7 @@ def parseTrailers (b : Bytes) : FieldsRes := takeFields (b.length + 1) b
 
   Everything after this point (connection automaton, reference framer, theorems) is stated for an
   arbitrary `HeadParser`: a function that, given the unprocessed bytes of the read buffer, either
-  wants more bytes, or refuses, or delivers a `Head` — method, target, version class and **any**
+  wants more bytes, or refuses (`refuse`: error reply / close), or delivers a `Head` — method, target, version class and **any**
   list of `(name, value)` fields (any letter case, any order, duplicates, list values …) — plus the
   bytes that follow the head.  What the framing proofs need from it is only that it is an
   *incremental scanner* (`LawfulHeadParser`): its verdict on a buffer does not change when more bytes
@@ -327,10 +335,12 @@ class LawfulHeadParser [P : HeadParser] : Prop where
   head_nil : P.head [] = .incomplete
   head_append : ∀ (b e : Bytes) (h : Head) (r : Bytes), P.head b = .ok h r → P.head (b ++ e) = .ok h (r ++ e)
   head_bad_append : ∀ (b e : Bytes), P.head b = .bad → P.head (b ++ e) = .bad
+  head_refuse_append : ∀ (b e : Bytes) (x : Option Nat), P.head b = .refuse x → P.head (b ++ e) = .refuse x
   head_length : ∀ (b : Bytes) (h : Head) (r : Bytes), P.head b = .ok h r → r.length < b.length
   trailers_append : ∀ (b e : Bytes) (fs : List Field) (r : Bytes),
     P.trailers b = .ok fs r → P.trailers (b ++ e) = .ok fs (r ++ e)
   trailers_bad_append : ∀ (b e : Bytes), P.trailers b = .bad → P.trailers (b ++ e) = .bad
+  trailers_refuse_append : ∀ (b e : Bytes) (x : Option Nat), P.trailers b = .refuse x → P.trailers (b ++ e) = .refuse x
   trailers_length : ∀ (b : Bytes) (fs : List Field) (r : Bytes), P.trailers b = .ok fs r → r.length < b.length
 
 /-- the strict splitter as a head parser (what `drv_frame` executes) -/
